@@ -372,6 +372,8 @@ func c11Run(scn *c11Scn) (obs c11Obs) {
 						text = "   \n"
 					case "noSpace":
 						text = names[0] + ":nospace\n"
+					case "long":
+						text = strings.Repeat("x", 100*1024) + "\n"
 					}
 					if _, err := pw.Write([]byte(text)); err != nil {
 						return
@@ -482,6 +484,8 @@ func c11Run(scn *c11Scn) (obs c11Obs) {
 			obs.Forwarded = append(obs.Forwarded, "noColon")
 		case l == "referenceserver|"+names[0]+":nospace\n":
 			obs.Forwarded = append(obs.Forwarded, "noSpace")
+		case l == "referenceserver|"+strings.Repeat("x", 100*1024)+"\n":
+			obs.Forwarded = append(obs.Forwarded, "long")
 		default:
 			obs.Forwarded = append(obs.Forwarded, "altered:"+l)
 		}
